@@ -14,6 +14,13 @@ What is tied to what
               method x {all rules allowed, first rule denied, every rule denied, conditional rule
               denied with the condition on/off, auth_enable_check on/off} x resource present/absent:
               refusal class + "database unchanged, no engine call"
+  policy_eval Model.Rest.enforce_allows (rule expression of the loaded policy x caller facts x target, no
+              case for administrators) vs the REAL acl.enforce / oslo.policy enforcer on generated rule
+              assignments ("!", "@", role:, rule:, is_admin:, project_id:, and/or/not, overridden base
+              rules) x callers {admin, owner, other-project member, no roles, mixed-case roles}
+  callers     every guarded endpoint (incl. get_all with all_projects=true / project_id and create/update
+              with scope=public) x those callers x policy files overriding the decisive rule: handle under
+              policy_env vs the real application
   trace       the acl.enforce calls the real request makes before its first SQL statement /
               engine call  ==  the Enforce / applicable CondEnforce effects of the table row;
               no enforce after the first data access
@@ -27,6 +34,10 @@ Oracle (no model, no table): for every exposed method outside the documented all
     authentication is off), whether or not the resource exists, every table of the database is
     byte-for-byte unchanged and the engine is not called;
   * denying only the rule the registry documents for (verb, resource) has the same effect;
+  * for every caller - administrators included - and every policy file of the grid: when the policy
+    language (py_decide: expression, caller facts, caller's own target; written independently of
+    oslo.policy and of the Coq model) denies the rule an endpoint checks, the answer is 403 and nothing
+    is read or changed; acl.enforce itself refuses whenever the loaded policy denies the caller;
   * under the default policy a non-admin caller listing with all_projects (or project_id) gets 403,
     and a non-admin caller creating/updating with scope=public gets 403 with the database unchanged;
   * state-changing requests: the engine is asked only for the documented moves (execution:
@@ -71,6 +82,14 @@ Self-test (scratch worktree of /repo with the fix above applied so that the base
   M14b rest_utils.wrap_pecan_controller_exception: status=e.http_code -> status=400 -> VIOLATION (403 required)
   M15 access_control.enforce: do_raise default False -> VIOLATION (every denied request goes through)
   M16 task.py put: target-state check loosened to states.is_valid -> VIOLATION task-put:undocumented-target
+  S1  (seeded by the lead) access_control.enforce: `if context.is_admin: return True` before the enforcer call
+        -> translate:Gen/ApiTable.v broken (enforce() is not the plain delegation) and VIOLATION
+           policy-denied-but-served:admin-caller / enforce-ignores-policy:admin-caller (admin, rule assigned "!")
+  S2  execution.py delete: `if not context.ctx().is_admin: acl.enforce('executions:delete', ...)`
+        -> translate broken (enforce under an unrecognised condition) and VIOLATION policy-denied-but-served:admin-caller
+           (admin DELETE under "executions:delete": "!" answered 204, row deleted; found on the lenient table)
+  S3  access_control.enforce: policy_context['is_admin'] = context.is_admin or 'member' in roles
+        -> translate broken and VIOLATION policy-denied-but-served:non-admin-caller (rule:admin_only served to a member)
   Not reported, and rightly so (equivalent with respect to the property):
   M2  execution.py get_all: `if all_projects or project_id:` -> `if all_projects:`  (a non-admin's project_id
       filter stays inside the secured query: no row of another project is shown; oracle `foreign-project`)
@@ -98,11 +117,18 @@ MANIFEST = {
                   'documented for its verb/resource and named after its action, all_projects / publicize rules are '
                   'admin-only and enforced under their condition before any data access, every documented operation '
                   'of such a rule is implemented, unguarded / pre-guarded methods and unused rules are exactly the '
-                  'listed ones; decision functions of execution PUT/DELETE, task PUT, action-execution PUT/DELETE '
+                  'listed ones; the policy decision is a function of the rule expression in the loaded policy, the '
+                  'caller (roles, is_admin, ids) and the target only: denied-by-policy => 403 and database unchanged '
+                  'for EVERY caller incl. admin and every rule assignment ("!" and role rules included), all_projects / '
+                  'publicize need their own rules for every caller, registered defaults characterised; decision '
+                  'functions of execution PUT/DELETE, task PUT, action-execution PUT/DELETE '
                   'for every request text x field combination. Table extracted from the source on every run; model '
                   'tied to the code by running every method of the real WSGI app (denied/allowed x present/absent, '
-                  'enforce/SQL/RPC traces) and every state/field combination against the model.',
-    'level_note': 'Trusted: the extractor translate/tr_apitable.py (its static reading is cross-checked against the '
+                  'callers {admin, owner, other project, no roles} x policy-file overrides, enforce/SQL/RPC traces), the '
+                  'real acl.enforce on generated rule expressions x callers, and every state/field combination.',
+    'level_note': 'Policy language modelled for the subset @ ! role: rule: is_admin:/project_id:/user_id: and/or/not '
+                  '(other oslo.policy checks, e.g. http:, are outside the model; the registered defaults are inside). '
+                  'Trusted: the extractor translate/tr_apitable.py (its static reading is cross-checked against the '
                   'live controller tree, the registry object and the runtime enforce/SQL/RPC trace of every method), '
                   'pecan/wsme routing and argument parsing, oslo.policy rule evaluation, keystone authentication '
                   '(AuthHook is exercised with a stub handler), SQLAlchemy/sqlite. The engine behind the RPC client '
@@ -113,6 +139,15 @@ MANIFEST = {
 }
 
 IMPORTS = ['Gen.States', 'Model.Rest', 'Gen.ApiTable']
+
+WITH_MODEL = [True]     # the widened search after a broken obligation judges with the oracles only
+
+
+def model_eval(name, exprs, imports=None, **kw):
+    """vm_compute of the model expressions; [None, ...] in oracle-only mode"""
+    if not WITH_MODEL[0]:
+        return [None] * len(exprs)
+    return core.coq_eval(name, imports or IMPORTS, exprs, **kw)
 
 UNGUARDED_ALLOWLIST = {
     'RootController.index', 'Controller.index', 'InfoController.get', 'SpecValidationController.post',
@@ -182,7 +217,23 @@ class App:
         cfg.CONF.set_default('max_overflow', -1, group='database')
         cfg.CONF.set_default('max_pool_size', 1000, group='database')
         db_api.setup_db()
-        self.ctx = tbase.get_context()
+        self.owner_ctx = tbase.get_context()
+        self.owner_ctx.roles = ['member']
+        self.ctx = self.owner_ctx
+        mk = auth_context.MistralContext.from_dict
+        self.callers = {
+            'owner': self.owner_ctx,
+            'admin': mk({'user_name': 'adm', 'user': 'admin-user', 'tenant': self.owner_ctx.project_id,
+                         'project_id': self.owner_ctx.project_id, 'project_name': 'test-project',
+                         'is_admin': True, 'roles': ['admin']}),
+            'other': mk({'user_name': 'oth', 'user': 'other-user', 'tenant': OTHER_PROJECT, 'project_id': OTHER_PROJECT,
+                         'project_name': 'other-project', 'is_admin': False, 'roles': ['member']}),
+            'noroles': mk({'user_name': 'nor', 'user': 'noroles-user', 'tenant': self.owner_ctx.project_id,
+                           'project_id': self.owner_ctx.project_id, 'project_name': 'test-project',
+                           'is_admin': False, 'roles': []}),
+            'Reader': mk({'user_name': 'rdr', 'user': 'reader-user', 'tenant': OTHER_PROJECT, 'project_id': OTHER_PROJECT,
+                          'project_name': 'other-project', 'is_admin': False, 'roles': ['Reader', 'MEMBER']}),
+        }
         self.other_ctx = auth_context.MistralContext.from_dict({
             'user_name': 'other-user', 'user': '9-0-44-5', 'tenant': OTHER_PROJECT, 'project_id': OTHER_PROJECT,
             'project_name': 'other-project', 'is_admin': False})
@@ -278,7 +329,17 @@ class App:
         self.cfg.CONF.set_override('auth_enable', bool(on), group='pecan')
 
     def set_admin(self, on):
-        self.ctx.is_admin = bool(on)
+        self.owner_ctx.is_admin = bool(on)
+
+    def set_caller(self, name):
+        self.ctx = self.callers[name]
+        self.auth_context.set_ctx(self.ctx)
+
+    def set_rules(self, overrides):
+        """registered defaults, except the given {rule: check string} (an operator's policy file)"""
+        P = self.oslo_policy
+        for n in self.rule_names:
+            self.enf.rules[n] = P.RuleDefault(n, overrides[n]).check if n in overrides else self.enf.registered_rules[n].check
 
     # -- rpc results --------------------------------------------------------------
     def rpc_result(self, name, a, kw):
@@ -335,7 +396,7 @@ class App:
         spec_parser.clear_caches()
         self.in_hook += 1
         try:
-            self.auth_context.set_ctx(self.ctx)
+            self.auth_context.set_ctx(self.owner_ctx)
             ids = {}
             with db_api.transaction():
                 if not hasattr(self, '_specs'):
@@ -784,7 +845,13 @@ def documented_rule(app, verb, mount, mname):
 def load_table(ctx):
     sys.path.insert(0, os.path.join(core.VERIF, 'translate'))
     import tr_apitable
-    return tr_apitable.extract(core.REPO)
+    try:
+        return tr_apitable.extract(core.REPO)
+    except core.TranslateError:
+        # the translate obligation is already recorded broken; the oracles still need the list of methods
+        t = tr_apitable.extract(core.REPO, lenient=True)
+        t['lenient'] = True
+        return t
 
 
 def live_exposed(app):
@@ -929,13 +996,13 @@ def suite_handle_and_oracle(ctx, app, table, live):
     for k in sorted(live - {method_key(m) for m in methods}):
         ctx.obligation('correspondence:live-method-not-in-table:%s' % k, False, 'live exposed method missing from Gen/ApiTable.v')
     exprs = [model_class_expr(c['idx'], c['denied'], c['req'].get('conds', []), c['pre']) for c in cases]
-    res = core.coq_eval('c16handle', IMPORTS, exprs)
+    res = model_eval('c16handle', exprs)
     dist = {}
     for c, r in zip(cases, res):
         m = c['m']
         out = run_scenario(app, c['req'], c['policy'], c['denied'] if c['denied'] != 'ALL' else (), auth=c['auth'])
         real = classify_real(out['status'], out['events'], out['rpc'], out['unchanged'], c['pre'])
-        model = model_class(parse_pair(r))
+        model = model_class(parse_pair(r)) if r is not None else None
         scen = '%s/%s/%s' % (c['policy'], c['req']['tag'], 'cond' if c['req'].get('conds') else '-')
         dist[scen] = dist.get(scen, 0) + 1
         case_id = {'method': c['key'], 'request': {k: c['req'][k] for k in ('verb', 'url', 'body')},
@@ -944,7 +1011,7 @@ def suite_handle_and_oracle(ctx, app, table, live):
                              c['policy'], tuple(c['denied']), c['auth']),
                   nontrivial=(c['policy'] != 'allow_all'))
         ctx.cov['disagreements_checked'] += 1
-        if model != real:
+        if model is not None and model != real:
             ctx.disagree('handle', case_id, model, {'class': real, 'status': out['status'], 'events': out['events'][:8],
                                                     'unchanged': out['unchanged']})
         # --- trace: enforce calls before the first data access = the table's effects --------------
@@ -1023,7 +1090,7 @@ def suite_sequences(ctx, app, table):
         items = ['(m_effects (nth %d methods (mkMethod "" "" ROUTE [] NoWrap [] [] false false)), %s, (fun db : nat => (999, S db)))'
                  % (idx, coq_env(denied, req.get('conds', []), False)) for (idx, key, req, denied) in seq]
         exprs.append('fold_left serve %s 0' % coq_list(items))
-    res = core.coq_eval('c16seq', IMPORTS + ['Proofs.RestProofs'], exprs, chunk=25)
+    res = model_eval('c16seq', exprs, IMPORTS + ['Proofs.RestProofs'], chunk=25)
     app.seed()
     for seq, r in zip(seqs, res):
         start = app.db_hash()
@@ -1039,7 +1106,7 @@ def suite_sequences(ctx, app, table):
         ctx.count('sequences', tuple((k, q['url'], q['verb'], tuple(d)) for (_, k, q, d) in seq), evaluations=len(seq))
         ctx.cov['disagreements_checked'] += 1
         impl_unchanged = (start == end and rpc_total == 0 and data_total == 0 and all(x == 403 for x in statuses))
-        if (r.strip() == '0') != impl_unchanged:
+        if r is not None and (r.strip() == '0') != impl_unchanged:
             ctx.disagree('sequences', {'requests': [(k, q['verb'], q['url'], d) for (_, k, q, d) in seq]},
                          'final db = %s' % r, {'unchanged': start == end, 'statuses': statuses, 'engine_calls': rpc_total,
                                                'data_accesses': data_total})
@@ -1053,6 +1120,301 @@ def suite_sequences(ctx, app, table):
                      {'method': k, 'request': {x: q[x] for x in ('verb', 'url', 'body')}, 'policy': 'deny', 'denied': d,
                       'kind': 'denied', 'auth_enable': False})
             app.seed()
+
+
+# ---- callers x policy files ---------------------------------------------------------------------
+# A rule expression as a tuple AST: ('true',) ('false',) ('role', r) ('rule', n) ('cred', key, match)
+# ('and', a, b) ('or', a, b) ('not', a).  match: ('lit', s) | 'target_project' | 'target_user'.
+
+def check_text(k):
+    """oslo.policy syntax of an expression"""
+    t = k[0]
+    if t == 'true':
+        return '@'
+    if t == 'false':
+        return '!'
+    if t == 'role':
+        return 'role:%s' % k[1]
+    if t == 'rule':
+        return 'rule:%s' % k[1]
+    if t == 'cred':
+        m = k[2]
+        return '%s:%s' % (k[1], m[1] if isinstance(m, tuple) else {'target_project': '%(project_id)s', 'target_user': '%(user_id)s'}[m])
+    if t == 'not':
+        return 'not %s' % check_text(k[1]) if k[1][0] not in ('and', 'or') else 'not (%s)' % check_text(k[1])
+    return '(%s %s %s)' % (check_text(k[1]), t, check_text(k[2]))
+
+
+def check_coq(k):
+    t = k[0]
+    if t == 'true':
+        return 'CTrue'
+    if t == 'false':
+        return 'CFalse'
+    if t == 'role':
+        return '(CRole %s)' % coq_str(k[1])
+    if t == 'rule':
+        return '(CRule %s)' % coq_str(k[1])
+    if t == 'cred':
+        m = k[2]
+        return '(CCred %s %s)' % ({'is_admin': 'KIsAdmin', 'project_id': 'KProject', 'user_id': 'KUser'}[k[1]],
+                                  '(MLit %s)' % coq_str(m[1]) if isinstance(m, tuple) else
+                                  {'target_project': 'MTargetProject', 'target_user': 'MTargetUser'}[m])
+    if t == 'not':
+        return '(CNot %s)' % check_coq(k[1])
+    return '(%s %s %s)' % ({'and': 'CAnd', 'or': 'COr'}[t], check_coq(k[1]), check_coq(k[2]))
+
+
+def caller_facts(app, name):
+    c = app.callers[name]
+    return {'is_admin': bool(c.is_admin), 'roles': list(c.roles or []), 'project_id': c.project_id, 'user_id': c.user_id}
+
+
+def caller_coq(f):
+    return '(mkCaller %s %s %s %s)' % (coq_bool(f['is_admin']), coq_list([coq_str(r) for r in f['roles']]),
+                                       coq_str(f['project_id']), coq_str(f['user_id']))
+
+
+DEFAULT_BASE = {'admin_only': ('cred', 'is_admin', ('lit', 'True')),
+                'admin_or_owner': ('or', ('cred', 'is_admin', ('lit', 'True')), ('cred', 'project_id', 'target_project'))}
+
+
+def py_decide(k, f, base, depth=0):
+    """What the policy language means, written down independently of oslo.policy and of the Coq model:
+    the caller's facts, the target (the caller's own project / user) and the expression - nothing else."""
+    t = k[0]
+    if depth > 40:
+        return False
+    if t == 'true':
+        return True
+    if t == 'false':
+        return False
+    if t == 'role':
+        return k[1].lower() in [r.lower() for r in f['roles']]
+    if t == 'rule':
+        return py_decide(base[k[1]], f, base, depth + 1) if k[1] in base else False
+    if t == 'cred':
+        m = k[2]
+        want = m[1] if isinstance(m, tuple) else {'target_project': f['project_id'], 'target_user': f['user_id']}[m]
+        return want == str(f[k[1]])
+    if t == 'not':
+        return not py_decide(k[1], f, base, depth + 1)
+    if t == 'and':
+        return py_decide(k[1], f, base, depth + 1) and py_decide(k[2], f, base, depth + 1)
+    return py_decide(k[1], f, base, depth + 1) or py_decide(k[2], f, base, depth + 1)
+
+
+def fixed_checks(app):
+    owner_project = app.owner_ctx.project_id
+    return [
+        ('false',), ('true',), ('role', 'admin'), ('role', 'member'), ('rule', 'admin_or_owner'), ('rule', 'admin_only'),
+        ('cred', 'is_admin', ('lit', 'True')), ('not', ('role', 'admin')),
+        ('and', ('role', 'member'), ('cred', 'project_id', 'target_project')),
+        ('or', ('cred', 'is_admin', ('lit', 'True')), ('role', 'Member')),
+        ('cred', 'project_id', ('lit', owner_project)), ('cred', 'is_admin', ('lit', 'False')),
+        ('and', ('cred', 'is_admin', ('lit', 'True')), ('false',)), ('rule', 'no_such_rule'),
+        ('cred', 'user_id', 'target_user'), ('not', ('cred', 'is_admin', ('lit', 'True'))),
+    ]
+
+
+def random_check(rng, app, depth=0):
+    r = rng.random()
+    if depth >= 3 or r < 0.45:
+        return rng.choice(fixed_checks(app)[:12] + [('role', 'reader'), ('role', 'ADMIN'), ('cred', 'user_id', ('lit', 'admin-user')),
+                                                    ('cred', 'project_id', ('lit', OTHER_PROJECT))])
+    if r < 0.6:
+        return ('not', random_check(rng, app, depth + 1))
+    return (rng.choice(['and', 'or']), random_check(rng, app, depth + 1), random_check(rng, app, depth + 1))
+
+
+def policy_coq(overrides):
+    """Coq policy term: the generated defaults with the operator's entries in front"""
+    t = 'default_policy'
+    for n, k in overrides:
+        t = '(override %s %s %s)' % (t, coq_str(n), check_coq(k))
+    return t
+
+
+def real_enforce(app, rule, caller):
+    """the real mistral.api.access_control.enforce for the caller's real context object"""
+    from mistral import exceptions as exc
+    try:
+        r = app.acl.enforce(rule, app.callers[caller])
+        return 'allow' if r else 'falsy:%r' % (r,)
+    except exc.NotAllowedException:
+        return 'deny'
+    except Exception as e:
+        return 'crash:%s' % type(e).__name__
+
+
+def one_policy_eval(ctx, app, rule, k, base_over, caller):
+    """oracle on one (rule assignment, caller): denied by the policy => acl.enforce refuses"""
+    base = dict(DEFAULT_BASE)
+    base.update(base_over)
+    over = {rule: check_text(k)}
+    over.update({n: check_text(v) for n, v in base_over.items()})
+    app.set_rules(over)
+    try:
+        impl = real_enforce(app, rule, caller)
+    finally:
+        app.set_policy('default')
+    f = caller_facts(app, caller)
+    want = 'allow' if py_decide(k, f, base) else 'deny'
+    if want == 'deny' and impl != 'deny':
+        kind = 'admin' if f['is_admin'] else 'non-admin'
+        ctx.fail('enforce-ignores-policy:%s-caller' % kind,
+                 'acl.enforce(%r) for caller %s (is_admin=%s, roles=%s) answered %s although the loaded policy assigns '
+                 '%r to the rule, which denies this caller (required: NotAllowedException / 403)' % (
+                     rule, caller, f['is_admin'], f['roles'], impl, over[rule]),
+                 {'kind': 'policy_eval', 'rule': rule, 'check': k, 'base': sorted(base_over.items()), 'caller': caller,
+                  'policy_file': over})
+    return impl, want
+
+
+def suite_policy_eval(ctx, app, only=None):
+    """Model.Rest.enforce_allows vs the real acl.enforce (real oslo.policy enforcer, real context objects)
+    on generated rule assignments x callers; oracle from py_decide."""
+    rng = ctx.rng
+    rules = [n for n in app.rule_names if n not in DEFAULT_BASE]
+    callers = sorted(app.callers)
+    cases = []
+    if only is not None:
+        cases = [only]
+    else:
+        for k in fixed_checks(app):
+            for c in callers:
+                cases.append((rng.choice(rules), k, {}, c))
+        for _ in range(ctx.n(900, 15000)):
+            base_over = {}
+            if rng.random() < 0.25:
+                base_over[rng.choice(sorted(DEFAULT_BASE))] = rng.choice(
+                    [('role', 'member'), ('false',), ('true',), ('cred', 'is_admin', ('lit', 'True')), ('role', 'admin')])
+            cases.append((rng.choice(rules), random_check(rng, app), base_over, rng.choice(callers)))
+    exprs = []
+    for (rule, k, base_over, c) in cases:
+        pol = policy_coq(sorted(base_over.items()) + [(rule, k)])
+        exprs.append('show_bool (enforce_allows %s %s %s)' % (pol, caller_coq(caller_facts(app, c)), coq_str(rule)))
+    res = model_eval('c16policy', exprs) if only is None else [None]
+    dist = {}
+    for (rule, k, base_over, c), r in zip(cases, res):
+        if isinstance(k, list):
+            k = retuple(k)
+        impl, want = one_policy_eval(ctx, app, rule, k, dict(base_over), c)
+        dist[(c, want)] = dist.get((c, want), 0) + 1
+        ctx.count('policy_eval', (rule, check_text(k), tuple(sorted((a, check_text(b)) for a, b in dict(base_over).items())), c),
+                  nontrivial=(want == 'deny'))
+        ctx.cov['disagreements_checked'] += 1
+        if r is not None and core.unquote(r) != impl:
+            ctx.disagree('policy_eval', {'rule': rule, 'assigned': check_text(k),
+                                         'base': {a: check_text(b) for a, b in dict(base_over).items()}, 'caller': c,
+                                         'caller_facts': caller_facts(app, c)}, core.unquote(r), impl)
+    ctx.cov['suites'].setdefault('policy_eval', {})['caller_x_decision'] = {'%s/%s' % k: v for k, v in sorted(dist.items())}
+    if only is None:
+        ctx.sample({'suite': 'policy_eval', 'rule': cases[0][0], 'assigned': check_text(cases[0][1]), 'caller': cases[0][3]})
+
+
+def retuple(x):
+    return tuple(retuple(y) for y in x) if isinstance(x, (list, tuple)) else x
+
+
+def one_caller_request(ctx, app, key, m, req, over, caller, decisive, auth, expect_deny):
+    """the oracle on one request of one caller under one policy file"""
+    app.ensure_seed()
+    app.set_rules({n: check_text(k) for n, k in over})
+    app.set_auth(auth)
+    app.set_caller(caller)
+    try:
+        before = app.db_hash()
+        status, events, rpcs = app.request(req)
+        after = app.db_hash()
+    finally:
+        app.set_caller('owner')
+        app.set_auth(False)
+        app.set_policy('default')
+    out = {'status': status, 'events': events, 'rpc': [c[0] for c in rpcs], 'unchanged': before == after}
+    if expect_deny:
+        clean = out['unchanged'] and not out['rpc'] and not data_events(events)
+        if status != 403 or not clean:
+            f = caller_facts(app, caller)
+            ctx.fail('policy-denied-but-served:%s-caller' % ('admin' if f['is_admin'] else 'non-admin'),
+                     '%s %s by caller %s (is_admin=%s, roles=%s) under a policy file assigning %r to %s answered %d; '
+                     'database unchanged=%s, engine calls=%s, data accesses=%s (the rule denies this caller: required 403, '
+                     'nothing read or changed)' % (req['verb'], req['url'], caller, f['is_admin'], f['roles'],
+                                                   check_text(dict(over)[decisive]), decisive, status, out['unchanged'],
+                                                   out['rpc'], [e[1] for e in data_events(events)][:4]),
+                     {'kind': 'caller', 'method': key, 'request': {x: req[x] for x in ('verb', 'url', 'body')},
+                      'policy_file': [[n, k] for n, k in over], 'decisive': decisive, 'caller': caller, 'auth_enable': auth})
+    return out
+
+
+def suite_callers(ctx, app, table, only=None):
+    """Every guarded endpoint (incl. get_all with all_projects=true / project_id, create/update with
+    scope=public) x callers {admin, owner, other-project member, no roles} x policy files that assign
+    to the decisive rule one of the expressions of fixed_checks (or leave the default): model
+    (handle under policy_env) vs the real application, and the oracle `denied by policy => 403,
+    nothing read or changed`."""
+    rng = ctx.rng
+    ids = app.ensure_seed()
+    callers = ['admin', 'owner', 'other', 'noroles']
+    checks = [None] + fixed_checks(app)[:12]          # None = the registered default
+    cases = []
+    for idx, m in enumerate(table['methods']):
+        key = method_key(m)
+        if key in UNGUARDED_ALLOWLIST:
+            continue
+        auth = m['cls'] == 'MembersController'
+        for mount in m['mounts']:
+            # the rule that decides: what the method enforces first; when the table has no such claim (new or
+            # unrecognised method) the rule the registry documents for the verb and resource
+            docs = documented_rule(app, m['verb'], mount, m['name'])
+            fe = first_enforce(m) or (docs[0] if len(docs) == 1 else None)
+            if not fe:
+                continue
+            for req in build_requests(ids, key, mount) or generic_requests(ids, m, mount):
+                if not ctx.thorough() and req['tag'] == 'absent':
+                    continue
+                req = dict(req, conds=[])
+                scen = [(req, fe, [])]
+                for (rule, cond) in conds_before_data(m):
+                    scen.append((variant(req, cond), rule, [(fe, ('true',))]))
+                for (rq, decisive, pre) in scen:
+                    for c in callers:
+                        if ctx.thorough():
+                            ks = checks
+                        else:
+                            ks = [('false',)] + rng.sample(checks, 2)
+                        for k in ks:
+                            cases.append((idx, key, m, rq, decisive, pre, k, c, auth))
+    if only is not None:
+        cases = [only]
+    exprs, meta = [], []
+    base = dict(DEFAULT_BASE)
+    reg = {r['name']: r['kind'] for r in table['rules']}
+    for (idx, key, m, rq, decisive, pre, k, c, auth) in cases:
+        over = list(pre) + ([(decisive, k)] if k is not None else [])
+        f = caller_facts(app, c)
+        eff = k if k is not None else ('rule', {'AdminOnly': 'admin_only', 'AdminOrOwner': 'admin_or_owner'}[reg[decisive]])
+        deny = not py_decide(eff, f, base)
+        meta.append((over, deny))
+        exprs.append('handle (nth %d methods (mkMethod "" "" ROUTE [] NoWrap [] [] false false)) '
+                     '(policy_env %s %s (fun c => existsb (cond_eqb c) %s) (fun _ => false)) (fun db : nat => (999, S db)) 0'
+                     % (idx, policy_coq(over), caller_coq(f), coq_list(list(rq.get('conds', [])))))
+    res = model_eval('c16callers', exprs) if only is None else [None]
+    dist = {}
+    for (idx, key, m, rq, decisive, pre, k, c, auth), (over, deny), r in zip(cases, meta, res):
+        out = one_caller_request(ctx, app, key, m, rq, over, c, decisive, auth, deny)
+        real = classify_real(out['status'], out['events'], out['rpc'], out['unchanged'], False)
+        dist[(c, 'deny' if deny else 'allow')] = dist.get((c, 'deny' if deny else 'allow'), 0) + 1
+        ctx.count('callers', (key, rq['url'], rq['verb'], json.dumps(rq['body'], sort_keys=True), c,
+                              tuple((n, check_text(x)) for n, x in over)), nontrivial=deny)
+        ctx.cov['disagreements_checked'] += 1
+        if r is not None:
+            model = model_class(parse_pair(r))
+            if model != real:
+                ctx.disagree('callers', {'method': key, 'request': {x: rq[x] for x in ('verb', 'url', 'body')}, 'caller': c,
+                                         'policy_file': [(n, check_text(x)) for n, x in over]}, model,
+                             {'class': real, 'status': out['status'], 'events': out['events'][:6], 'unchanged': out['unchanged']})
+    ctx.cov['suites'].setdefault('callers', {})['caller_x_decision'] = {'%s/%s' % k: v for k, v in sorted(dist.items())}
 
 
 def judge_default_policy(kind, out):
@@ -1189,7 +1551,7 @@ def suite_exec_put(ctx, app, only=None):
     if only is not None:
         cases, res = [tuple(only)], [None]
     else:
-        res = core.coq_eval('c16execput', IMPORTS, exprs)
+        res = model_eval('c16execput', exprs)
     tname = exec_table(app)
     for (st, desc, env, present, cur), r in zip(cases, res):
         model = parse_outcome(r) if r is not None else None
@@ -1297,7 +1659,7 @@ def suite_exec_delete(ctx, app, only=None):
     if only is not None:
         cases, res = [tuple(only)], [None]
     else:
-        res = core.coq_eval('c16execdel', IMPORTS, exprs)
+        res = model_eval('c16execdel', exprs)
     for (cur, force, present), r in zip(cases, res):
         model = parse_outcome(r) if r is not None else None
         url, status, rpcs, gone = one_exec_delete(app, cur, force, present)
@@ -1339,7 +1701,7 @@ def suite_task_put(ctx, app, only=None):
     if only is not None:
         combos, res = [tuple(only)], [None]
     else:
-        res = core.coq_eval('c16taskput', IMPORTS, exprs)
+        res = model_eval('c16taskput', exprs)
     for (st, cur, reset, wi, present, name, wfname), r in zip(combos, res):
         model = parse_outcome(r) if r is not None else None
         ids = app.ensure_seed(task_state=cur, with_items=wi)
@@ -1398,7 +1760,7 @@ def suite_action_put(ctx, app, only=None):
     if only is not None:
         cases, res = [tuple(only)], [None]
     else:
-        res = core.coq_eval('c16actput', IMPORTS, exprs)
+        res = model_eval('c16actput', exprs)
     for (st, output, present), r in zip(cases, res):
         model = parse_outcome(r) if r is not None else None
         ids = app.ensure_seed()
@@ -1452,7 +1814,7 @@ def suite_action_delete(ctx, app, only=None):
     if only is not None:
         cases, res = [tuple(only)], [None]
     else:
-        res = core.coq_eval('c16actdel', IMPORTS, exprs)
+        res = model_eval('c16actdel', exprs)
     tname = next(t.name for t in app.tables() if t.name.startswith('action_executions'))
     for (cur, cfgflag, which), r in zip(cases, res):
         model = parse_outcome(r) if r is not None else None
@@ -1504,6 +1866,8 @@ def run(ctx):
     suite_handle_and_oracle(ctx, app, table, live)
     suite_default_policy_oracle(ctx, app, table)
     suite_sequences(ctx, app, table)
+    suite_policy_eval(ctx, app)
+    suite_callers(ctx, app, table)
     suite_exec_put(ctx, app)
     suite_exec_delete(ctx, app)
     suite_task_put(ctx, app)
@@ -1516,22 +1880,35 @@ def run(ctx):
 
 
 def search(ctx):
-    """Widened oracle-only search: the same oracles on the full (thorough) combination space."""
+    """Widened oracle-only search (no model, no Coq): the same oracles on the full (thorough)
+    combination space.  Works when the translator / the build is what broke."""
     ctx.tier = 'thorough'
+    WITH_MODEL[0] = False
     table = load_table(ctx)
     app = get_app()
     before = len(ctx.disagreements)
     live = {method_key(m) for m in table['methods']}
+    def at(tier, fn):
+        def go():
+            ctx.tier = tier
+            fn()
+        return go
+    # the caller x policy-file grid first in its quick size (an HTTP-level witness is found in seconds if there
+    # is one), then everything in the thorough size
+    steps = [at('quick', lambda: suite_callers(ctx, app, table)), at('quick', lambda: suite_policy_eval(ctx, app)),
+             at('thorough', lambda: suite_handle_and_oracle(ctx, app, table, live)),
+             at('thorough', lambda: suite_default_policy_oracle(ctx, app, table)),
+             at('thorough', lambda: suite_callers(ctx, app, table)), at('thorough', lambda: suite_policy_eval(ctx, app)),
+             at('thorough', lambda: suite_sequences(ctx, app, table)), at('thorough', lambda: suite_exec_put(ctx, app)),
+             at('thorough', lambda: suite_exec_delete(ctx, app)), at('thorough', lambda: suite_task_put(ctx, app)),
+             at('thorough', lambda: suite_action_put(ctx, app)), at('thorough', lambda: suite_action_delete(ctx, app))]
     try:
-        suite_handle_and_oracle(ctx, app, table, live)
-        suite_default_policy_oracle(ctx, app, table)
-        suite_sequences(ctx, app, table)
-        suite_exec_put(ctx, app)
-        suite_exec_delete(ctx, app)
-        suite_task_put(ctx, app)
-        suite_action_put(ctx, app)
-        suite_action_delete(ctx, app)
+        for i, st in enumerate(steps):
+            st()
+            if ctx.failures and i >= 1:
+                break        # a concrete failing input is what the search is for
     finally:
+        WITH_MODEL[0] = True
         del ctx.disagreements[before:]
 
 
@@ -1539,17 +1916,29 @@ def replay(obj):
     """Re-run the recorded request on the real application and judge it with the same oracle.
     Exit status 1 while the property is still violated by this input, 0 when it no longer is."""
     r = obj.get('replay', {})
-    if 'request' not in r:
+    if 'request' not in r and r.get('kind') != 'policy_eval':
         print(json.dumps(obj, indent=1)[:3000])
         return 1
     app = get_app()
     ctx = core.Ctx('C16', 'quick', 0)
     kind = r.get('kind', 'denied')
-    req = dict(r['request'])
+    req = dict(r.get('request', {}))
     req['ctype'] = 'json' if isinstance(req.get('body'), dict) else None
     suites = {'exec_put': suite_exec_put, 'exec_delete': suite_exec_delete, 'task_put': suite_task_put,
               'action_put': suite_action_put, 'action_delete': suite_action_delete}
-    if kind in suites and 'tuple' in r:
+    if kind == 'policy_eval':
+        impl, want = one_policy_eval(ctx, app, r['rule'], retuple(r['check']), {n: retuple(k) for n, k in r.get('base', [])},
+                                     r['caller'])
+        print('acl.enforce(%r) for caller %s under policy file %s -> %s (the policy language says %s)' % (
+            r['rule'], r['caller'], r.get('policy_file'), impl, want))
+    elif kind == 'caller':
+        over = [(n, retuple(k)) for n, k in r['policy_file']]
+        out = one_caller_request(ctx, app, r.get('method'), None, req, over, r['caller'], r['decisive'],
+                                 r.get('auth_enable', False), True)
+        print('%s %s body=%r caller=%s policy file %s -> status %d, database unchanged=%s, engine calls=%s' % (
+            req['verb'], req['url'], req.get('body'), r['caller'], [(n, check_text(k)) for n, k in over], out['status'],
+            out['unchanged'], out['rpc']))
+    elif kind in suites and 'tuple' in r:
         suites[kind](ctx, app, only=r['tuple'])
         print('%s %s body=%r (rows: %s)' % (req['verb'], req['url'], req.get('body'),
                                             {k: r[k] for k in ('current', 'present', 'with_items', 'which') if k in r}))
